@@ -94,9 +94,19 @@ def public_type_json(t) -> Any:
     return None
 
 
-def concrete(tj: Any, rng: Optional[random.Random] = None, how: str = "same") -> Any:
+def runtime_shape_of(m: onnx.ModelProto) -> Optional[list]:
+    """TypeGen models carry their run-time shape in the graph's doc_string (declarations may hide it)."""
+    d = m.graph.doc_string
+    if d.startswith("runtime-shape:"):
+        return json.loads(d[len("runtime-shape:"):])
+    return None
+
+
+def concrete(tj: Any, rng: Optional[random.Random] = None, how: str = "same", runtime: Optional[list] = None) -> Any:
     """An argument type for a declared input type: symbolic dims replaced by what the data has."""
     e, dims = tj["t"]
+    if runtime is not None and e == TP.FLOAT and how == "same":
+        return {"t": [e, list(runtime)]}
     if dims is None:
         return {"t": [e, [2] if e != TP.BOOL else []]}
     out = []
@@ -108,6 +118,10 @@ def concrete(tj: Any, rng: Optional[random.Random] = None, how: str = "same") ->
         else:
             out.append(rng.choice([2, None, "K", d]))
     return {"t": [e, out]}
+
+
+def concrete_for(m: onnx.ModelProto, i, rng: Optional[random.Random] = None, how: str = "same") -> Any:
+    return concrete(L.type_json(i.type), rng, how, runtime_shape_of(m))
 
 
 def closure_of(f) -> dict:
@@ -127,6 +141,7 @@ def gen_call(rng: random.Random, m: onnx.ModelProto) -> dict:
     ins = [i.name for i in m.graph.input]
     defaults = {i.name for i in m.graph.initializer}
     tjs = {i.name: L.type_json(i.type) for i in m.graph.input}
+    rt = runtime_shape_of(m)
     n = len(ins)
     style = rng.random()
     if style < 0.6:  # a correct call
@@ -158,17 +173,23 @@ def gen_call(rng: random.Random, m: onnx.ModelProto) -> dict:
             return tj
         r = rng.random()
         if r < 0.82:
-            return concrete(tj, rng, "same")
+            return concrete(tj, rng, "same", rt)
         if r < 0.9:
             return concrete(tj, rng, "vary")
-        e, dims = concrete(tj, rng, "same")["t"]
-        k = rng.randrange(5)
+        e, dims = concrete(tj, rng, "same", rt)["t"]
+        k = rng.randrange(6)
         if k == 0:
             return {"t": [TP.INT64 if e != TP.INT64 else TP.FLOAT, dims]}
         if k == 1:
             return {"t": [e, list(dims) + [1]]}
         if k == 2:
             return {"t": [e, [3 if isinstance(d, int) else d for d in dims]]}
+        if k == 5 and dims:
+            # same rank, ONE constant replaced by another constant (0 <-> non-zero included)
+            j = rng.randrange(len(dims))
+            d = dims[j]
+            other = rng.choice([x for x in (0, 1, 2, 3, 5) if x != d]) if isinstance(d, int) else 0
+            return {"t": [e, [other if q == j else x for q, x in enumerate(dims)]]}
         if k == 3:
             return {"t": [e, None]}
         return {"t": [e, [None for _ in dims]]}
@@ -475,6 +496,8 @@ def input_values(rng: random.Random, m: onnx.ModelProto) -> dict:
         else:
             dims = (L.type_json(i.type) or {"t": [e, None]})["t"][1]
             shape = [2] if dims is None else [d if isinstance(d, int) else 2 for d in dims]
+            if runtime_shape_of(m) is not None:
+                shape = list(runtime_shape_of(m))
             n = int(np.prod(shape)) if shape else 1
             vals[i.name] = np.array([rng.randrange(-4, 5) + 0.25 * rng.randrange(4) for _ in range(n)], np.float32).reshape(shape)
     return vals
@@ -736,7 +759,7 @@ def oracle_compose(m: onnx.ModelProto, form: str, seed: int) -> list[tuple[str, 
     float_outs = [o.name for o in m.graph.output if o.type.tensor_type.elem_type == TP.FLOAT]
 
     def arg_for(i):
-        tj = concrete(L.type_json(i.type))
+        tj = concrete_for(m, i)
         return argument(spox_type(tj))
 
     def direct(vals: dict, omit=()):
@@ -746,7 +769,7 @@ def oracle_compose(m: onnx.ModelProto, form: str, seed: int) -> list[tuple[str, 
             raise Infra(f"onnxruntime cannot run m itself: {e}") from e
 
     vals1 = input_values(rng, m)
-    vals2 = {k: (-v if v.dtype != np.bool_ else np.array(not bool(v))) for k, v in vals1.items()}
+    vals2 = {k: (np.asarray(-v) if v.dtype != np.bool_ else np.array(not bool(v))) for k, v in vals1.items()}
     fshape = tuple(vals1[float_ins[0]].shape) if float_ins else (2,)
 
     blame_vals = [vals1, vals2]  # every input assignment m is evaluated on in this composition
@@ -768,6 +791,7 @@ def oracle_compose(m: onnx.ModelProto, form: str, seed: int) -> list[tuple[str, 
 
     expected: dict[str, Any] = {}
     results: dict[str, Any] = {}
+    check_built_decl = None
     try:
         with warnings.catch_warnings():
             warnings.simplefilter("ignore")
@@ -783,6 +807,7 @@ def oracle_compose(m: onnx.ModelProto, form: str, seed: int) -> list[tuple[str, 
                     fails.append(("result-names", f"returned keys {list(r.keys())}, model outputs {outs}"))
                 elif got != declared:
                     fails.append(("output-type-mismatch", f"returned types {got}, declared {declared}"))
+                check_built_decl = declared
             elif form in ("twice", "shared-callable"):
                 f1 = inline(m)
                 f2 = f1 if form == "shared-callable" else inline(m)
@@ -952,6 +977,13 @@ def oracle_compose(m: onnx.ModelProto, form: str, seed: int) -> list[tuple[str, 
     except Exception as e:  # noqa: BLE001
         fails.append((classify_build_error(m, e, ml_v), f"{label}: building around inline(m) raised {type(e).__name__}: {str(e)[:300]}"))
         outer = None
+    if outer is not None and check_built_decl is not None and mixed_v is None and ml_v is None:
+        # the built model declares, for the Vars inline(m) returned, m's output types literally (0 stays 0)
+        built_decl = {o.name: L.strip_symbols(L.type_json(o.type)) for o in outer.graph.output}
+        for k, dcl in enumerate(check_built_decl):
+            if built_decl.get(f"res_{k}") != dcl:
+                fails.append(("built-output-type-mismatch", f"{label}: the built model declares {built_decl.get(f'res_{k}')} for output {k}, m declares {dcl}"))
+                break
     if outer is not None:
         try:
             got = dict(zip([o.name for o in outer.graph.output], ort_run(outer, feeds)))
@@ -1002,7 +1034,7 @@ def oracle_build_only(m: onnx.ModelProto, seed: int) -> list[tuple[str, str]]:
     try:
         with warnings.catch_warnings():
             warnings.simplefilter("ignore")
-            A = [argument(spox_type(concrete(L.type_json(i.type)))) for i in m.graph.input]
+            A = [argument(spox_type(concrete_for(m, i))) for i in m.graph.input]
             r = inline(m)(*A)
             outer = build({f"arg_{j}": a for j, a in enumerate(A)}, {f"res_{k}": r[o.name] for k, o in enumerate(m.graph.output)})
     except Exception as e:  # noqa: BLE001
@@ -1055,7 +1087,7 @@ def oracle_hostile_names(m: onnx.ModelProto, seed: int, variants=None) -> list[t
         try:
             with warnings.catch_warnings():
                 warnings.simplefilter("ignore")
-                A = [argument(spox_type(concrete(L.type_json(i.type)))) for i in m.graph.input]
+                A = [argument(spox_type(concrete_for(m, i))) for i in m.graph.input]
                 r = inline(m)(*A)
                 built = build(dict(zip(arg_keys, A)), {rk: r[o] for rk, o in zip(res_keys, outs)})
         except Exception as e:  # noqa: BLE001 - refusing is fine
@@ -1088,7 +1120,7 @@ def oracle_errors(m: onnx.ModelProto, seed: int) -> list[tuple[str, str]]:
     defaults = {i.name for i in m.graph.initializer}
 
     def arg(i, wrong=False):
-        tj = concrete(L.type_json(i.type))
+        tj = concrete_for(m, i)
         if wrong:
             e, dims = tj["t"]
             tj = {"t": [TP.INT64 if e != TP.INT64 else TP.FLOAT, dims]}
@@ -1125,6 +1157,17 @@ def oracle_errors(m: onnx.ModelProto, seed: int) -> list[tuple[str, str]]:
         expect_type_error("wrong-type", bad, {})
     else:
         expect_type_error("wrong-type", [], dict(zip(names, bad)))
+    # same rank, one DECLARED constant dimension replaced by another constant (0 <-> non-zero included): cannot match
+    cands = [(jj, q, d) for jj, i in enumerate(ins) for q, d in enumerate((L.type_json(i.type) or {"t": [0, None]})["t"][1] or [])
+             if isinstance(d, int) and "t" in (L.type_json(i.type) or {})]
+    if cands:
+        jj, q, d = rng.choice(cands)
+        tj = concrete_for(m, ins[jj])
+        e, dims = tj["t"]
+        other = rng.choice([x for x in (0, 1, 2, 3, 5) if x != d])
+        bad2 = list(full)
+        bad2[jj] = argument(spox_type({"t": [e, [other if qq == q else x for qq, x in enumerate(dims)]]}))
+        expect_type_error("wrong-shape", bad2, {})
     try:
         inline(L.add_local_function(m))
         fails.append(("functions-accepted", "a model defining local functions was not refused"))
@@ -1197,6 +1240,11 @@ def fixed_corner_models() -> list[tuple[onnx.ModelProto, dict]]:
     sp = H.make_sparse_tensor(NH.from_array(np.array([3.0], np.float32), "s"), NH.from_array(np.array([1], np.int64), ""), [2])
     out.append((mk([H.make_node("Add", ["x", "s"], ["y"])], [f2("x")], [f2("y")], opset=14, sparse_initializer=[sp]),
                 ["sparse-initializer", "opset-14"]))
+    # --- literal 0 dimensions, dim_param "", dimensions without fields in the declared types
+    z = H.make_model(H.make_graph([H.make_node("Add", ["x", "y"], ["s"]), H.make_node("Abs", ["s"], ["o"])], "g",
+                                  [f2("x", (0, 3)), f2("y", ("", 3))], [f2("o", (0, 3)), f2("s", (None, 3))], doc_string="runtime-shape:[0, 3]"),
+                     opset_imports=[H.make_operatorsetid("", 17)], ir_version=8)
+    out.append((z, ["declared-types", "zero-size", "decl:literal-0", "decl:dim_param-empty", "decl:dim-missing-fields", "no-chain"]))
     # --- initializers OWNED BY BODIES of m (If branches, Loop body, Scan body, depth 2): renamed with the body's names
     ib_t = H.make_graph([H.make_node("Add", ["x", "B"], ["t"])], "then_g", [], [f2("t")], initializer=[NH.from_array(np.array([1, 2], np.float32), "B")])
     ib_e = H.make_graph([H.make_node("Mul", ["x", "S"], ["t"])], "else_g", [], [f2("t")], initializer=[NH.from_array(np.array([3, 4], np.float32), "S")])
@@ -1285,7 +1333,7 @@ def fixed_corner_models() -> list[tuple[onnx.ModelProto, dict]]:
     return [(m, {"features": sorted(ft + ["corner"]), "runnable": True, "opset": next((o.version for o in m.opset_import if o.domain in ("", "ai.onnx")), 17), "kind": "corner"}) for m, ft in out]
 
 
-def make_models(ck: core.Check, n_hand: int, n_spox: int, n_vbody: int = 0):
+def make_models(ck: core.Check, n_hand: int, n_spox: int, n_vbody: int = 0, n_types: int = 0):
     rng = ck.rng
     models = list(fixed_corner_models())
     n_corner = len(models)
@@ -1301,7 +1349,17 @@ def make_models(ck: core.Check, n_hand: int, n_spox: int, n_vbody: int = 0):
             dropped += 1
             if dropped > 5 * n_vbody + 20:
                 raise RuntimeError("version generator produces mostly invalid models")
-    while len(models) < n_corner + n_vbody + n_hand:
+    n_t = 0
+    while n_t < n_types:
+        m, meta = L.TypeGen(rng).model()
+        if valid(m, True, rng):
+            models.append((m, meta))
+            n_t += 1
+        else:
+            dropped += 1
+            if dropped > 10 * n_types + 50:
+                raise RuntimeError("type generator produces mostly invalid models")
+    while len(models) < n_corner + n_vbody + n_types + n_hand:
         m, meta = L.HandGen(rng).model()
         if valid(m, meta["runnable"], rng):
             models.append((m, meta))
@@ -1312,7 +1370,8 @@ def make_models(ck: core.Check, n_hand: int, n_spox: int, n_vbody: int = 0):
     # every model is snapshotted as bytes the moment it exists; all later phases work on fresh copies
     snaps = [m.SerializeToString(deterministic=True) for m, _ in models]
     library = [fresh(b) for b, (m, meta) in zip(snaps, models) if meta["runnable"] and len(m.graph.output) >= 1
-               and "version-family" not in meta["features"] and meta["kind"] != "vbody"][:40]
+               and "version-family" not in meta["features"] and meta["kind"] not in ("vbody", "types")
+               and "declared-types" not in meta["features"]][:40]
     with warnings.catch_warnings():
         warnings.simplefilter("ignore")
         made = 0
@@ -1350,7 +1409,7 @@ def purity(m: onnx.ModelProto) -> list[tuple[str, str]]:
             warnings.simplefilter("ignore")
             f = inline(m)
             mid = m.SerializeToString(deterministic=True)
-            f(*[argument(spox_type(concrete(L.type_json(i.type)))) for i in m.graph.input])
+            f(*[argument(spox_type(concrete_for(m, i))) for i in m.graph.input])
     except Exception:  # noqa: BLE001 - judged elsewhere
         mid = m.SerializeToString(deterministic=True)
     after = m.SerializeToString(deterministic=True)
@@ -1408,7 +1467,8 @@ def run(ck: core.Check):
     if changed:
         ck.notes.append(f"covered source changed since the baseline ({', '.join(changed)}): version-family counts escalated")
         n_vbody *= 3
-    models, snaps, dropped = make_models(ck, n_hand, n_spox, n_vbody)
+    n_types = ck.pick(40, 300)
+    models, snaps, dropped = make_models(ck, n_hand, n_spox, n_vbody, n_types)
     ck.log(f"{len(models)} models generated ({dropped} invalid candidates dropped)")
     feature_hist: dict[str, int] = {}
     for _, meta in models:
@@ -1641,6 +1701,8 @@ def _oracle_phase(ck, models, snaps, rng, scope_obs):
             # the version family: always next to operators of a later opset, in several compositions and histories
             forms = (list(FORMS) + list(MIXED_FORMS)) if (ck.thorough or ESCALATE or meta["kind"] == "corner") else (
                 ["once", "mixed+once"] + rng.sample(MIXED_FORMS[1:], 2) + rng.sample(["mixed-opset", "history", "name-history", "loop-body", "if-body"], 1))
+        elif "declared-types" in meta["features"]:
+            forms = ["once", "twice", "if-body", "chained", "mixed-opset"] if ck.thorough else ["once", rng.choice(["twice", "if-body", "chained", "mixed-opset"])]
         else:
             forms = list(FORMS) if (ck.thorough or meta["kind"] == "corner") else ["once"] + rng.sample(FORMS[1:], 3)
         for form in forms:
